@@ -21,6 +21,13 @@ MUT = [
  ("C20", "qkeras/autoqkeras/autoqkeras_internal.py", "            layer.units = max(int(layer.units * layer_filters), 1)", "            layer.units = max(int(layer.units * layer_filters), 2)", "quantize_model/filters"),
  ("C20", "qkeras/autoqkeras/autoqkeras_internal.py", "          if layer.use_bias:\n            layer_d[\"bias_quantizer\"], bits = self._get_quantizer(", "          if not layer.use_bias:\n            layer_d[\"bias_quantizer\"], bits = self._get_quantizer(", "quantize_model/dense"),
  ("C20", "qkeras/autoqkeras/autoqkeras_internal.py", "      elif layer.__class__.__name__ in self.limit:\n        # mark it for conversion", "      elif layer.__class__.__name__ not in REGISTERED_LAYERS:\n        # mark it for conversion", "quantize_model/dense"),
+ ("C19", "qkeras/qtools/qenergy/qenergy.py", "      energy_op = (number_of_inputs - 1) * operation_count * gate_factor * OP[", "      energy_op = number_of_inputs * operation_count * gate_factor * OP[", "energy_estimate"),
+ ("C19", "qkeras/qtools/qenergy/qenergy.py", "    total_energy += (input_rd_energy + output_wr_energy +\n                     parameter_rd_energy + energy_op)", "    total_energy += (input_rd_energy + output_wr_energy +\n                     parameter_rd_energy)", "energy_estimate"),
+ ("C19", "qkeras/qtools/qenergy/qenergy.py", "      c2 = OP[get_op_type(accumulator.output)][\"add\"](accumulator.output.bits)", "      c2 = OP[get_op_type(accumulator.output)][\"add\"](multiplier.output.bits)", "energy_estimate"),
+ ("C19", "qkeras/qtools/qenergy/qenergy.py", "      energy_op *= operation_count\n", "      pass\n", "energy_estimate"),
+ ("C19", "qkeras/qtools/qenergy/qenergy.py", "        is_output_layer, output_shapes,\n        activations_on_memory,", "        is_input_layer, output_shapes,\n        activations_on_memory,", "energy_estimate"),
+ ("C19", "qkeras/qtools/qenergy/qenergy.py", "          bias_quantizer.bits, is_tensor=False\n      )", "          weight_quantizer.bits, is_tensor=False\n      )", "parameter_read_energy"),
+ ("C19", "qkeras/qtools/qenergy/qenergy.py", "      if q:\n        rd_energy += memory_read_energy(", "      if True:\n        rd_energy += memory_read_energy(", "parameter_read_energy"),
  ("C19", "qkeras/qtools/qtools_util.py", "    operation_count = (\n        time_o * channels_o * kernel_length * channels_i)", "    operation_count = (\n        time_o * channels_o * kernel_length)", "Conv1D"),
  ("C10", "qkeras/quantizers.py", '    flags = [str(self.bits), integer_bits, str(int(self.symmetric))]\n    if not self.keep_negative:\n      flags.append("keep_negative=False")\n    if self.alpha:', '    flags = [str(self.bits), str(int(self.symmetric)), integer_bits]\n    if not self.keep_negative:\n      flags.append("keep_negative=False")\n    if self.alpha:', "quantized_bits"),
  ("C10", "qkeras/safe_eval.py", "    if (len(items[i]) == 1) and (len(items[i-1]) == 2):", "    if (len(items[i]) == 1) and (len(items[i-1]) == 2) and i > 1:", "GetParams"),
